@@ -46,6 +46,9 @@ def cases(tier, rng, boost=1):
         yield _mk('md_wt', lt, [0], [3, 2], src='corpus-long')
         yield _mk('md_paths', lt, [0, 1], [3], form='statetraj', src='corpus-long')
     yield _mk('md_wt', [[1, 2, 3, 1, 3], [3, 1, 2, 3]], [1], [3], src='corpus')
+    # a lumped object (macrostate trajectories as given, two microstates under each): events are extracted from the MACROstate trajectories
+    yield _mk('md_wt', [[4, 4, 7, 9, 7, 4, 9, 9, 4, 7, 7, 9]], [4], [9], form='lumped_statetraj', src='corpus')
+    yield _mk('md_paths', [[4, 4, 7, 9, 7, 4, 9, 9, 4, 7, 7, 9], [9, 4, 7, 4, 9]], [4], [9], form='lumped_statetraj', src='corpus')
     yield _mk('md_paths', [[1, 2, 1, 2, 4, 2, 3]], [1], [3], src='corpus')
     yield _mk('md_wt', [[1, 2, 3]], [1, 7], [3], src='corpus')            # absent label mixed with present
     yield _mk('md_wt', [[1, 2, 3]], [1, 3], [3], src='corpus')            # overlap
@@ -83,7 +86,7 @@ def cases(tier, rng, boost=1):
             S = S + S[:1]
             rng.shuffle(S)
         fn = rng.choice(['md_wt', 'md_paths'])
-        yield _mk(fn, trajs, S, F, form=rng.choice(gen.FORMS), src='rand')
+        yield _mk(fn, trajs, S, F, form=(rng.choice(gen.FORMS) if rng.random() < 0.88 else 'lumped_statetraj'), src='rand')
 
 
 def real(case):
